@@ -127,6 +127,35 @@ CHECKS = {
          'Trusted: the inliner\'s reading of the statement (macroname is rebound to the base\'s name inside an extend chain); both renderings come from the real engine so everything but METAL cancels out.',
          'DESIGN.md §3 C09'),
 }
+
+# additions of the later sessions (DESIGN.md §10.6); appended to the level text of each check.  The case counts quoted
+# in the texts above are those of the first build; the numbers measured by a run are in its evidence file.
+COMMON = (' Since session 3 every shard starts after a fixed set of hostile predecessor compilations / renderings (vlib/history.py), '
+          'and one template text in 4..8 reaches the engine through a module cache that has just stored a sibling configuration or a '
+          'sibling text (vlib/routes.py); both are counted in the evidence.')
+ADDENDA = {
+ 'C01': ' Added: escaped semicolons anywhere in define / attributes lists.',
+ 'C02': ' Added: the library\'s own translation function and the implicit-translation options as routes to the sinks; values with $$, ${name}; templates that come out of a loader after the same file was loaded as text.',
+ 'C03': ' Added: identity under every option not documented to touch unmarked markup; data-* names whose second word is a known prefix; prefixed elements whose prefix (also tal/metal/i18n/meta) is bound on the element itself to a foreign namespace; documents written over an earlier document of the other kind.',
+ 'C04': ' Added: access paths (.name on subscripts, calls, parenthesised / conditional / comprehension / lambda results over records offering the name as attribute, item, both or neither; callables stored as items; dict-method names as keys) against an independent evaluator; variables named like the exception classes a pipe catches.',
+ 'C05': ' Added: variables named like the exception classes the generated code catches.',
+ 'C06': ' Added: the interpolation switch written as a data attribute.',
+ 'C07': ' Added: unquoted static values with slashes; literal entries ending in an escaped semicolon; metamorphic twin listing the dynamic attributes in i18n:attributes under the default translation function.',
+ 'C08': ' Added: value-preserving spellings of the iterable expression (lambda parameters named like the loop variable); overlapping renders; iterable expressions reading the variable the loop is about to bind.',
+ 'C09': ' Added: whole templates given to use-macro with regions outside any define-macro; macros reached through load: across directories holding same-named files.',
+ 'C10': ' Added: an output encoding in effect; the same instance rendered before with another per-rendering translation function.',
+ 'C11': ' Added: language faults in the data-attribute spelling; i18n:name outside a translation block; leads whose compilation opens and closes internal compiler state; CRLF / CR variants; auto-reload file templates whose versions alternate between valid and erroneous texts (every use of an erroneous version is rejected).',
+ 'C12': ' Added: failing expressions written with character entities (alternate-model classifier for the open finding); failures raised by the attribute access itself; macro expressions in several spellings; nested renderings through a helper that formats the error on its way out; characters splitlines() takes for line boundaries.',
+ 'C13': ' Added: fallback start tag equals the regular start tag under trim_attribute_space / boolean_attributes / enable_data_attributes (metamorphic); every Exception subclass is handled, non-Exceptions are not.',
+ 'C14': ' Added: the format asked of a loader in the shared-loader histories; auto-reload file templates in use while the file is replaced with arbitrary (also older) modification times.',
+ 'C15': ' Added: the same document as str and as bytes; file templates with very long names; a file-size limit (disk full / quota stand-in) reached while a module is stored.',
+ 'C16': ' Added: the format asked of a loader is part of the loads; templates reached through symbolic links (re-pointed directory link, file link with load:).',
+ 'C17': ' Added: the value-encoding option must not decide template decoding; documents written over an earlier document of the other kind (write(), auto-reload).',
+ 'C18': ' Added: elements of the METAL and I18N namespaces; default-namespace declarations on namespace elements and as the way an element enters a template namespace; meta:interpolation values that switch something off; ordinary data-<known prefix>-x attributes.',
+ 'C19': ' Added: strict setting handed down through load:; strict / non-strict auto-reload twins following one file; invalid expressions inside macro bodies, slot defaults, fillers and as the on-error expression.',
+ 'C20': '',
+}
+
 NOT_YET = {}
 
 def main():
@@ -144,7 +173,7 @@ def main():
             'replay_cmd_template': './vcheck %s --replay {path}' % pid,
             'engine': engine,
             'technique': tech,
-            'level_claimed': {'category': cat, 'text': text, 'design_ref': ref},
+            'level_claimed': {'category': cat, 'text': text + ADDENDA.get(pid, '') + (COMMON if pid not in ('C14', 'C15', 'C16', 'C17', 'C11', 'C19') else ''), 'design_ref': ref},
             'level_note': note,
         })
     not_app = []
